@@ -158,10 +158,19 @@ def execute(sc):
         rt.shutdown_loop(loop)
 
     def sync_consumer():
+        own = None
+        if sc.get('own_loop'):
+            own = rt.VLoop('OWN')      # the documented loop= option: the caller's loop, reused afterwards
+            keep.append(own)
+            if sc.get('own_loop') == 'reused':
+                # an earlier complete use of the bridge on the same loop must leave the loop usable
+                async def warm():
+                    yield 'warm'
+                assert list(A.to_sync_iter(warm(), loop=own)) == ['warm']
         ctl.log('IterStart')
         j = 0
         try:
-            for x in A.to_sync_iter(agen()):
+            for x in (A.to_sync_iter(agen(), loop=own) if own is not None else A.to_sync_iter(agen())):
                 check(j, x)
                 j += 1
                 if sc.get('consume_delay', 0) > 0:
